@@ -376,6 +376,9 @@ theorem dispatch_ok (cls : Classes) (m : Mode) (ch : Char) (st : St) (h : Holder
   by_cases c11 : ch = '`' ∨ (m.ansiQuotes = true ∧ ch = '"')
   · rw [if_pos c11]; exact stepQuotedIdent_ok ..
   rw [if_neg c11]
+  by_cases c12 : 127 < ch.toNat
+  · rw [if_pos c12]; exact ⟨St.le_refl _, rfl, rfl⟩
+  rw [if_neg c12]
   exact ⟨St.le_refl _, rfl, rfl⟩
 
 theorem scanStep_spec (cls : Classes) (m : Mode) (st0 : St) (h : Holders) :
